@@ -880,6 +880,20 @@ fn syndrome_faults(ctx: &Ctx, rng: &mut Rng, s: &SizeInfo, b: usize, faults: &mu
     }
     let v = poly.len() - 1;
     // poly = [1, p_{v-1}, ..., p_0]; S_{j+v} = sum_{i<v} p_i S_{j+i} (char 2)
+    if rng.chance(1, 3) {
+        // overwrite some syndromes in place WITHOUT continuing the recurrence: the first / last few, or one
+        // anywhere, set to zero or to a random value - the rest stays exactly the genuine pattern's
+        let m = rng.range(1, 3.min(k - 1));
+        let idxs: Vec<usize> = match rng.below(4) {
+            0 | 1 => (0..m).collect(),
+            2 => (k - m..k).collect(),
+            _ => vec![rng.below(k)],
+        };
+        let zero = rng.chance(2, 3);
+        for j in idxs {
+            syn[j] = if zero { 0 } else { rng.byte() };
+        }
+    } else {
     let n_disc = if rng.chance(3, 4) { 1 } else { 2 };
     for _ in 0..n_disc {
         let cands = [2 * v, 2 * v + 1, t, t + 1, (t + v).saturating_sub(1), t + v, t + v + 1, k.saturating_sub(v), k - 1, k];
@@ -897,6 +911,7 @@ fn syndrome_faults(ctx: &Ctx, rng: &mut Rng, s: &SizeInfo, b: usize, faults: &mu
                 syn[j] = acc;
             }
         }
+    }
     }
     // the genuine pattern's own syndromes are already in `syn` except for the discrepancies: realise the
     // DIFFERENCE to "no error" entirely in the EC part: find r (degree < k) with r(alpha^j) = syn_j
